@@ -216,7 +216,10 @@ def abstract(base, proj, texts):
         readable[i] = os.path.isfile(c) and per_file.get(c, ("",))[0] not in proj.get("binary", [])
         rel = per_file.get(c, (None, None))[0]
         okk[i] = readable[i] and rel is not None and rel not in proj["broken"]
-    inputs = [fid(os.path.join(base, s)) for s in proj["inputs"]]
+    # the files given on the command line are read in the order of their canonical paths (component-wise, as `PathBuf` compares),
+    # each once
+    canon_inputs = sorted({os.path.realpath(os.path.join(base, s)) for s in proj["inputs"]}, key=lambda c: c.split(os.sep))
+    inputs = [fid(c) for c in reversed(canon_inputs)]      # the model pops the last one first, like the stack of the code
     return {"ids": ids, "canon_of": canon_of, "libs": libs, "table": table, "inc_pos": inc_pos, "readable": readable, "ok": okk, "inputs": inputs, "n": len(ids)}
 
 
@@ -239,21 +242,25 @@ def parse_model(line):
             "errors": [] if not d.get("errors") else [tuple(int(y) for y in x.split(".")) for x in d["errors"].split(",")]}
 
 
+def spec_resolve(ab, row):
+    rel, dot, sep, key = row
+    if rel is not None:
+        return rel
+    for l in ab["libs"]:
+        if l[0] == "d":
+            # the property: relative to the including file, then through the libraries — whatever the written path looks like
+            for k, f in l[1]:
+                if k == key:
+                    return f
+        elif not sep and l[2] == key:
+            return l[1]
+    return None
+
+
 def spec_reach(ab):
     """L1 oracle: plain reachability"""
     def resolve(row):
-        rel, dot, sep, key = row
-        if rel is not None:
-            return rel
-        for l in ab["libs"]:
-            if l[0] == "d":
-                # the property: relative to the including file, then through the libraries — whatever the written path looks like
-                for k, f in l[1]:
-                    if k == key:
-                        return f
-            elif not sep and l[2] == key:
-                return l[1]
-        return None
+        return spec_resolve(ab, row)
     seen, todo = set(), list(ab["inputs"])
     unresolved = set()
     while todo:
@@ -342,15 +349,28 @@ def run(ctx):
             if want_os != got_os:
                 problems.append("unlocated file errors for %s, unreadable named files %s" % ([os.path.relpath(x, base) for x in got_os], [os.path.relpath(x, base) for x in want_os]))
             located_os = [r for r in parse if r["message"].startswith("Failed to open file") and r["primary"] and names_existing_file(r)]
-            want_inc = sorted(ab["canon_of"][f] for f in seen if not ab["readable"][f] and f not in ab["inputs"])
-            got_inc = sorted(os.path.realpath(r["message"].split("`")[1]) for r in located_os)
-            if want_inc != got_inc:
-                problems.append("located file errors for %s, unreadable included files %s" % ([os.path.relpath(x, base) for x in got_inc], [os.path.relpath(x, base) for x in want_inc]))
+            # one error at every include statement (of a file that was read and parsed) that refers to the unreadable file: which of
+            # them is displayed is then a matter of the file filter alone, not of the order in which the files were met (audit C17 f1)
+            want_sites = set()
+            for g in seen:
+                if not ab["ok"][g]:
+                    continue
+                for idx, row in enumerate(ab["table"].get(g, [])):
+                    t = spec_resolve(ab, row)
+                    if t is not None and not ab["readable"][t] and t not in ab["inputs"]:
+                        want_sites.add((g, idx, t))
+            got_sites = set()
             for r in located_os:
                 l = r["primary"][0]
-                pos = ab["inc_pos"].get(ab["ids"].get(os.path.realpath(l["file"])), [])
-                if not any(l["start"] == a for a, b in pos):
+                g = ab["ids"].get(os.path.realpath(l["file"]))
+                pos = ab["inc_pos"].get(g, [])
+                hit = [i for i, (a, b) in enumerate(pos) if l["start"] == a]
+                if len(hit) != 1:
                     problems.append("file error `%s` is not located at an include statement (%d-%d)" % (r["message"][:60], l["start"], l["end"]))
+                else:
+                    got_sites.add((g, hit[0], ab["ids"].get(os.path.realpath(r["message"].split("`")[1]))))
+            if want_sites != got_sites:
+                problems.append("located file errors at %s, include statements that refer to an unreadable file %s" % (sorted(got_sites), sorted(want_sites)))
             if set(got_errs) != unresolved:
                 problems.append("include errors %s, unresolved includes %s" % (sorted(got_errs), sorted(unresolved)))
             stats["include errors"] += len(got_errs)
